@@ -42,8 +42,13 @@ func MakeBidToBuy1SatOrdinal(ctx context.Context, mba *MakeBidArgs) (*bt.Tx, err
 	validUTXOFound := false
 	for i, u := range mba.BidderUTXOs {
 		if u.Satoshis > mba.BidAmount {
-			// Move the UTXO at index i to the beginning
-			mba.BidderUTXOs = append([]*bt.UTXO{u}, append(mba.BidderUTXOs[:i], mba.BidderUTXOs[i+1:]...)...)
+			// Move the UTXO at index i to the beginning - in a list of our own:
+			// appending to mba.BidderUTXOs[:i] would shift the elements of the caller's slice
+			reordered := make([]*bt.UTXO, 0, len(mba.BidderUTXOs))
+			reordered = append(reordered, u)
+			reordered = append(reordered, mba.BidderUTXOs[:i]...)
+			reordered = append(reordered, mba.BidderUTXOs[i+1:]...)
+			mba.BidderUTXOs = reordered
 			validUTXOFound = true
 			break
 		}
